@@ -73,6 +73,24 @@ static inline void qbytes_fromBase64Encoding(FromBase64Result *_ret, qbytes b) {
   if (b == 0) { _ret->ok = true; _ret->decoded = 0; return; }
   _ret->ok = __CPROVER_uninterpreted_b64_ok(b); _ret->decoded = __CPROVER_uninterpreted_b64_dec(b); }
 
+/* QString::toLatin1, QByteArray::fromBase64 (lenient decoder), toHex / fromHex -- A-QT-B64 / A-QT-HEX: base64 and hex text is ASCII,
+   so toLatin1(fromUtf8(r)) == r for it; fromBase64(toBase64(b)) == b; fromHex(toHex(b)) == b; empty <-> empty */
+qbytes __CPROVER_uninterpreted_latin1_enc(qstr s);
+qbytes __CPROVER_uninterpreted_b64_dec_lenient(qbytes b);
+qbytes __CPROVER_uninterpreted_hex_enc(qbytes b);
+qbytes __CPROVER_uninterpreted_hex_dec(qbytes b);
+static inline qbytes qstr_toLatin1(qstr s) { if (s == 0) return 0; return __CPROVER_uninterpreted_latin1_enc(s); }
+static inline qbytes qbytes_fromBase64(qbytes b) { if (b == 0) return 0; return __CPROVER_uninterpreted_b64_dec_lenient(b); }
+static inline qbytes qbytes_fromHex(qbytes b) { if (b == 0) return 0; return __CPROVER_uninterpreted_hex_dec(b); }
+static inline qbytes qbytes_toHex(qbytes b) { if (b == 0) return 0; qbytes r = __CPROVER_uninterpreted_hex_enc(b);
+  __CPROVER_assume(r != 0 && __CPROVER_uninterpreted_hex_dec(r) == b && __CPROVER_uninterpreted_utf8_dec(r) != 0
+                   && __CPROVER_uninterpreted_latin1_enc(__CPROVER_uninterpreted_utf8_dec(r)) == r);
+  return r; }
+/* toBase64 as above, additionally stating the Latin-1 / lenient-decoder facts about its (ASCII) result */
+static inline qbytes qbytes_toBase64_l1(qbytes b) { qbytes r = qbytes_toBase64(b); if (r == 0) return 0;
+  __CPROVER_assume(__CPROVER_uninterpreted_latin1_enc(__CPROVER_uninterpreted_utf8_dec(r)) == r && __CPROVER_uninterpreted_b64_dec_lenient(r) == b);
+  return r; }
+
 /* ---- date-time (instants) */
 enum { Qt_ISODate = 1, Qt_ISODateWithMs = 9 };
 qstr __CPROVER_uninterpreted_dt_str(qdt d, int fmt);
